@@ -56,7 +56,19 @@ WinDist(o, s, mss) ==
 
 WinInstance(o, s) == s.k = "any" \/ o = s
 
+\* the only pairs for which distance 0 is defensible under some reading of the p0f window forms (MTU-relative forms
+\* cannot be judged without the link MTU and are left open)
+WinZeroAllowed(o, s, mss) ==
+  \/ WinInstance(o, s)
+  \/ o.k = "value" /\ s.k = "mss" /\ mss > 0 /\ (o.n \div mss) = s.n
+  \/ o.k = "value" /\ s.k = "mod" /\ s.n > 0 /\ (o.n % s.n) = 0
+  \/ o.k = "mss" /\ s.k = "value" /\ mss > 0 /\ o.n * mss = s.n
+  \/ o.k = "mss" /\ s.k = "mod" /\ mss > 0 /\ s.n > 0 /\ ((o.n * mss) % s.n) = 0
+  \/ o.k = "mod" /\ s.k = "mod" /\ s.n > 0 /\ (o.n % s.n) = 0
+  \/ o.k = "mtu" \/ s.k = "mtu"
+
 WinLaw(o, s, mss, d) ==
+  /\ (d = 0) => WinZeroAllowed(o, s, mss)          \* nothing that is not an instance is accepted at distance 0
   /\ WinInstance(o, s) => d = 0
   /\ (o.k = s.k /\ o.n # s.n) => d = PenWin
   /\ d \in {REJ, 0, PenWin}
